@@ -1,10 +1,21 @@
 """what MANIFEST.json claims, per property"""
-SOURCE_COMMITS = []
+SOURCE_COMMITS = ["586d1d8"]
 NOT_APPLICABLE = {}
 PROOF_NOTE = ("Trusted: Lean 4.33 kernel and the axioms printed per theorem (propext, Quot.sound, Classical.choice at most); the statements in lean/Proofs/Props; "
               "the hand-written model is validated against the C by differential execution (bounded by generator quality), not derived from it; "
               "translator and harness themselves.")
 CHECKS = {
+ "C14": dict(category="proof",
+   text=("Theorems on the model of cabd_find: the result is independent of the search-buffer size (every n>=1), the restart logic always advances "
+         "(termination), and every reported cabinet parses as a cabinet at its reported offset (no false positives). Completeness (every planted cabinet is found) "
+         "is not yet a theorem: it is checked by the implementation-side oracle and model/implementation agreement on generated files with partial and fake signatures; "
+         "that oracle found the defect repaired by commit 586d1d8 (cabinet preceded by M/MS/MSC)."),
+   note=PROOF_NOTE, technique="Lean 4 theorems by functional induction over the scanner model + differential runs (search results) + planted-cabinet oracle"),
+ "C19": dict(category="proof",
+   text=("Mechanism-level theorem: the inventory of writable static objects regenerated from today's objects (nm) and sources is exactly four never-written objects, "
+         "and any interleaving of per-instance operation lists gives each instance its solo results (generic theorem, instantiated for the CAB model). "
+         "Data races proper are outside a Lean model: ThreadSanitizer runs with 2-16 threads on own instances compare concurrent with solo results."),
+   note=PROOF_NOTE + " The C memory model and thread schedules are not modelled.", technique="Lean 4 (decide over regenerated inventory; induction over interleavings) + TSan differential runs"),
  "C12": dict(category="proof",
    text=("CAB: theorems over all data/positions/values/seeds that any single-byte change of a checksummed block's payload, of either size-field byte, "
          "or of the stored checksum makes cabd_sys_read_block's test fail (or turns the stored checksum into 0 = 'no checksum', data untouched); "
